@@ -320,24 +320,36 @@ func run(p *kernel.Plan) (res *kernel.Result) {
 			}
 			o := src.log[li] // time of the call, value it saw
 			last := src.log[len(src.log)-1]
-			var want float64
+			// "the time since the first non-zero observation": the anchor may be the
+			// first non-zero observation made by an Average() call (as the library
+			// does; that call returns 0) or the sampler's first non-zero observation
+			var wants []float64
+			avgOf := func(b head) float64 {
+				d := int64(last.val - b.val)
+				ms := int64((o.at - b.at) / time.Millisecond)
+				if d <= 0 || ms <= 0 {
+					return 0
+				}
+				return float64(d) * 1000 / float64(ms) * scale
+			}
 			switch {
 			case last.val == 0:
-				want = 0
+				wants = []float64{0}
 			case avgBase == nil:
 				avgBase = &head{o.at, last.val}
-				want = 0
+				wants = []float64{0}
 			default:
-				d := int64(last.val - avgBase.val)
-				ms := int64((o.at - avgBase.at) / time.Millisecond)
-				if d <= 0 || ms <= 0 {
-					want = 0
-				} else {
-					want = float64(d) * 1000 / float64(ms) * scale
-				}
+				wants = []float64{avgOf(*avgBase)}
 			}
-			if !near(v, want) {
-				return fail("C20/average-wrong", "Average() at %v = %v; the source showed %d now and %+v at the first non-zero Average() observation: want %v", at, v, last.val, avgBase, want)
+			if firstNZ >= 0 && last.val != 0 {
+				wants = append(wants, avgOf(head{samplerObs[firstNZ].at, samplerObs[firstNZ].val}))
+			}
+			okAvg := false
+			for _, w := range wants {
+				okAvg = okAvg || near(v, w)
+			}
+			if !okAvg {
+				return fail("C20/average-wrong", "Average() at %v = %v; the source showed %d now and %+v at the first non-zero Average() observation: want one of %v", at, v, last.val, avgBase, wants)
 			}
 			res.Stat("average_reads_checked", 1)
 		}
